@@ -58,6 +58,13 @@ contract("operon_ai/organelles/nucleus.py::Nucleus.transcribe_with_tools", "C03"
          ensures={"tools-only-through-the-gated-entry-point": "calls_to('.execute') == 0"})
 
 
+# ---------------------------------------------------------------- construction: the capability set the gate consults IS the one the caller configured
+contract(T + ".__init__", "C03", is_init=True, params={"tools": "none", "allowed_capabilities": "opt:set:enum:Capability"}, raises=[],
+         ensures={"allowed-set-is-stored-as-given": "(allowed_capabilities is None) == (self.allowed_capabilities is None) and "
+                                                    "implies(allowed_capabilities is not None, self.allowed_capabilities is allowed_capabilities)",
+                  "starts-without-tools": "len(self.tools) == 0"})
+
+
 def native_replay(rep):
     """registries are symbolic maps: the witness is searched for over small capability sets and all entry points on the real code"""
     import os, sys
